@@ -68,6 +68,7 @@ func (c01) Plan(tier string, seed int64) []mon.Workload {
 		{Name: "malformed-slots", N: n / 40},
 		{Name: "time-zones", N: int64(len(c12Times) * len(gen.Zones)), Exhaustive: true},
 		{Name: "extreme-index", N: int64(len(c01IdxObjs) * len(c01IdxVals) * len(c01IdxUses)), Exhaustive: true},
+		{Name: "many-locals", N: manyLocalsN(), Exhaustive: true},
 	}
 }
 
@@ -213,6 +214,8 @@ func (c01) build(c *mon.Ctx, workload string, i int64) (main []*gt.T, lib []*gt.
 	switch workload {
 	case "extreme-index":
 		return c01ExtremeIndex(i), nil
+	case "many-locals":
+		return manyLocalsProgram(i), nil
 	case "time-zones":
 		// every timestamp spelling x every zone spelling (known, numeric,
 		// unknown, malformed), the conversion called twice in the script and
